@@ -208,10 +208,11 @@ def run(chk: Check, model):
     pol = rx.ret
     f = dict(pol[2]) if pol[0] == "obj" and pol[1] == "Policy" else {}
     # what train passes to the Actor
+    # (from the evaluated call: keyword arguments by name, however they were passed - spelled out or through a **dict)
     actor_kw = {}
-    for n in ast.walk(f_t.node):
-        if isinstance(n, ast.Call) and isinstance(n.func, ast.Name) and n.func.id == "Actor":
-            actor_kw = {k.arg: ast.unparse(k.value) for k in n.keywords}
+    for e in rt.events:
+        if e.kind == "call" and e.name.rsplit(".", 1)[-1] in ("Actor", "new:Actor") and e.func == f_t2.qualname:
+            actor_kw = {k: T.show(v) for k, v in e.kwargs if k != "**"}
     chk.add("C20.extract", "hidden_activation from the field given to the Actor", f.get("hidden_activation") == S("self.config.HIDDEN_ACTIVATION") and actor_kw.get("hidden_activation") == "config.HIDDEN_ACTIVATION",
             f"policy: {T.show(f.get('hidden_activation', T.NONE))}; Actor(hidden_activation={actor_kw.get('hidden_activation')})", chk.loc(f_x))
     chk.add("C20.extract", "state_independent_std from the field given to the Actor", f.get("state_independent_std") == S("self.config.STATE_INDEPENDENT_STD") and actor_kw.get("state_independent_std") == "config.STATE_INDEPENDENT_STD",
